@@ -97,6 +97,8 @@ func init() {
 		if !ok {
 			return "false"
 		}
+		// documented: "the resulting Y field val will have a max magnitude of 2" - not necessarily normalised
+		y.Normalize()
 		return "true " + fvHex(&y)
 	}
 	generators["C04"] = genC04
@@ -156,12 +158,12 @@ func genC04(h *H) {
 					z2 = z1
 				}
 				cells := map[string][2][]string{
-					"generic":  {jacOf(x1, y1, z1), jacOf(x2, y2, z2)},
-					"equal":    {jacOf(x1, y1, z1), jacOf(x1, y1, z2)},
-					"opposite": {jacOf(x1, y1, z1), jacOf(x1, negY(y1), z2)},
-					"inf-left": {inf[h.rng.Intn(3)], jacOf(x2, y2, z2)},
+					"generic":   {jacOf(x1, y1, z1), jacOf(x2, y2, z2)},
+					"equal":     {jacOf(x1, y1, z1), jacOf(x1, y1, z2)},
+					"opposite":  {jacOf(x1, y1, z1), jacOf(x1, negY(y1), z2)},
+					"inf-left":  {inf[h.rng.Intn(3)], jacOf(x2, y2, z2)},
 					"inf-right": {jacOf(x1, y1, z1), inf[h.rng.Intn(3)]},
-					"inf-both": {inf[h.rng.Intn(3)], inf[h.rng.Intn(3)]},
+					"inf-both":  {inf[h.rng.Intn(3)], inf[h.rng.Intn(3)]},
 				}
 				for rel, ops := range cells {
 					zc := "z" + string(rune('0'+zs1)) + string(rune('0'+zs2))
